@@ -1024,6 +1024,10 @@ class ExperimentTopology(Topology):
         """
         Prune this interface
         """
+        peers = i.get_peers(itype=InterfaceType.ServicePort)
+        if peers and len(peers) == 1 and i.type != InterfaceType.ServicePort:
+            # disconnect from the service it is connected to (removes the service-side port and link)
+            self.get_parent_element(peers[0]).disconnect_interface(i)
         self.graph_model.remove_cp_and_links(node_id=i.node_id)
 
     def prune(self, reservation_state):
